@@ -53,8 +53,8 @@ class CaseStyle(Style):
 def profile(finding_lane=False):
     p = scalar.Profile()
     p.funcs = set(SQLA_FUNCS)
-    p.columns = dict(scalar.SCHEMA)
-    p.types = {"int", "float", "str", "bool", "datetime"}
+    p.columns = dict(scalar.SCHEMA, m="decimal")
+    p.types = {"int", "float", "str", "bool", "datetime", "decimal"}
     p.bool_cmp_atoms = False
     p.null_left = True
     p.bare_bool_column = True
